@@ -254,6 +254,35 @@ func checkC01(c c01Case, ctx *vCtx) *vFailure {
 			return vFailf("%s: resolving the already resolved book changed it", what)
 		}
 	}
+	// a hand-built book in which a recipe and its synonym were made from the same Elements value (the two slices share
+	// their backing array): each of them resolves as if it stood alone, whichever is visited first
+	if len(book) > 0 {
+		for r := 0; r < 2; r++ {
+			seed = vSplitMix(seed)
+			db := vBuildDB(book, vPermFromSeed(len(book), seed))
+			book2 := append([]vPRec{}, book...)
+			for k := 0; k < 3 && k < len(book); k++ {
+				src := book[int(vSplitMix(seed+uint64(k))%uint64(len(book)))]
+				syn := "syn~" + fmt.Sprint(k) + "~" + src.Head
+				if _, dup := db[syn]; dup {
+					continue
+				}
+				db.Push(&shared.DBNode{Header: syn, Elements: db[src.Head].Elements})
+				book2 = append(book2, vPRec{Head: syn, Entries: src.Entries})
+			}
+			m2 := vModelResolve(book2)
+			out, err := vResolveVia(r%2, db, c.N)
+			ctx.Run(1)
+			what := fmt.Sprintf("entry point %d, book with synonyms that share their ingredient list with the original (%d recipes)", r%2, len(book2))
+			if err != nil {
+				return vFailf("%s: error %v on an acyclic book with h_max=%d < N=%d", what, err, m2.HMax, c.N)
+			}
+			if f := vCheckResolvedDB(out, book2, m2, c.Exact, what); f != nil {
+				return f
+			}
+		}
+		ctx.Label("synonyms-sharing-storage")
+	}
 	// the deprecated Resolver object used twice: resolve, then define recipes for names that
 	// were basic elements so far, then resolve again with the same object. The result must be
 	// the resolution of the book as it is then.
